@@ -13,13 +13,19 @@ register('C07', 'proof',
          'detection predicate is_inactive, the accuracy and completeness lemmas over these two contracts, '
          'Context.on_timer_event (FAILED on exactly the inactive instances, loop invariant), on_instance_failure, '
          'Context.invalidate (local => STOPPED, fence or auto_fence with a working Master => ISOLATED, else STOPPED), the '
-         'state setter (raises unless the change is an edge of the documented graph), invalidate_failed (exactly the FAILED '
-         'instances are invalidated, what ran there becomes FATAL and is no longer listed there, other entries untouched). '
+         'state setter (raises unless the change is an edge of the documented graph), ProcessStatus.invalidate_identifier '
+         '(what ran on the lost instance becomes FATAL and is no longer listed there, other entries untouched; C11). '
          'Structural scans: single writer of _state, _Transitions = documented graph, whitelist of the functions assigning '
          'each target state, ISOLATED only for a non-local instance, call chain on_tick -> on_timer_event -> fsm.next -> '
          'invalidate_failed in every FSM state.',
          not_decided=['message-delay / phase arguments beyond "a tick was received within the window" (the statement is '
                       'phrased in received ticks)',
+                      'Context.invalidate_failed as a whole (clause 4 over all processes of the lost instances): its contract '
+                      '(contracts/pending_c07_invalidate_failed.txt) executes entirely and its instance-level clauses '
+                      'discharge, but the call precondition of invalidate_identifier (object invariant I11 for every '
+                      'process) is undecided within the budget, so it is NOT part of this check; the expected defect '
+                      'A11 (STOPPING-only copy on a lost instance stays listed) is reproduced natively only '
+                      '(findings/C07_invalidate_failed_stopping_demo.py)',
                       'reachability through the proxy-thread race of the STOPPED status met by on_instance_failure '
                       '(reproduced at function level after a real history, the interleaving itself is not modelled)'],
          assumptions=['the local TICK reaches on_tick (Supervisor event loop) and XML-RPC failure notifications are '
